@@ -13,7 +13,7 @@ use tower_layer::Layer;
 use tower_resilience_ratelimiter::{RateLimiterLayer, WindowType};
 use tower_service::Service;
 
-pub fn run(wseed: u64) {
+pub fn run(wseed: u64, rt: &tokio::runtime::Runtime) {
     let mut rng = Rng::new(wseed);
     let window = rng.below(3);
     let limit = 1 + rng.below(3) as usize;
@@ -22,7 +22,6 @@ pub fn run(wseed: u64) {
     let n: usize = per.iter().sum();
     println!("MSIM scenario=ratelimiter wseed={} window={} limit={} per_thread={:?}", wseed, window, limit, per);
 
-    let rt = paused_runtime();
     let handle = rt.handle().clone();
     let _g = rt.enter();
     let sh = Shared::new(usize::MAX, n);
@@ -55,12 +54,14 @@ pub fn run(wseed: u64) {
                 match drive(f.as_mut(), 10_000) {
                     None => violation("C15.decided_within_timeout [os_threads]", format!("request {} undecided with a zero timeout", id)),
                     Some(Ok(_)) => {
+                        note(4, id);
                         admitted.fetch_add(1, SeqCst);
                         if sh.entered[id].load(SeqCst) != 1 {
                             violation("C15.admitted_once [os_threads]", format!("request {} admitted, reached the wrapped service {} times", id, sh.entered[id].load(SeqCst)));
                         }
                     }
                     Some(Err(_)) => {
+                        note(5, id);
                         if sh.entered[id].load(SeqCst) != 0 {
                             violation("C15.rejected_never_inner [os_threads]", format!("request {} rejected and reached the wrapped service", id));
                         }
